@@ -181,7 +181,7 @@ def run(ck, only=None):
                         failed_default.add(c.cid)
                     sig = signature(msgs)
                     ck.violation(f"{c.cid} opt={oname} rustc-rejects {sig}",
-                                 {"cid": c.cid, "opt": oname, "predicate": f"{sig}|{structure_class(c)}", "source": c.source(),
+                                 {"cid": c.cid, "opt": oname, "predicate": f"{sig}|{structure_class(c)}|{oname}", "source": c.source(),
                                   "why": " | ".join(msgs)[:600]})
     ck.sample({"record": fam_c[len(fam_c) // 2].cid if fam_c else None, "cxx": fam_cpp[3].cid if len(fam_cpp) > 3 else None})
     if not only or only.get("header"):
